@@ -181,7 +181,7 @@ B("c11-warp-end-start", "C11", ENGINE, "            warp_end = warp.beat + Beat(
 B("c11-merge-reverse", "C11", ENGINE, "        for tagged_event in chronological_events:\n            self._state_machine.advance(tagged_event)", "        for tagged_event in sorted(chronological_events, key=lambda e: e.tag):\n            self._state_machine.advance(tagged_event)", "merge order")
 B("c11-lt-tag-first", "C11", ENGINE, "        if self.beat < other.beat:\n            return True\n        if self.beat == other.beat:\n            if self.tag < other.tag:\n                return True\n        return False", "        if self.tag < other.tag:\n            return True\n        if self.tag == other.tag:\n            if self.beat < other.beat:\n                return True\n        return False", "bisect")
 B("c11-bisect-no-minus-1", "C11", ENGINE, "        prior_state_index = max(0, bisect(self._tagged_beats, tagged_beat) - 1)\n        prior_state: TimingState = self._state_machine[prior_state_index]\n\n        return SongTime(", "        prior_state_index = max(0, bisect(self._tagged_beats, tagged_beat))\n        prior_state: TimingState = self._state_machine[prior_state_index]\n\n        return SongTime(", "prior state index")
-B("c11-time-from-event-beat", "C11", ENGINE, "            beats_until = beat - self.event.beat", "            beats_until = beat", "beats elapsed")
+B("c11-time-from-event-beat", "C11", ENGINE, "            beats_until = beat - self.event.beat", "            beats_until = beat", "elapsed time")
 B("c12-beats-until-60", "C12", ENGINE, "        beats_elapsed = time_elapsed / 60 * float(self.bpm)", "        beats_elapsed = time_elapsed * 60 / float(self.bpm)", "beats")
 B("c12-no-tick-rounding", "C12", ENGINE, "        return Beat(beats_elapsed)", "        return Beat(Fraction(beats_elapsed))", None, more=[(ENGINE, "from bisect import bisect\n", "from bisect import bisect\nfrom fractions import Fraction\n")])
 B("c12-pause-guard", "C12", ENGINE, "        if self.event.tag in (EventTag.STOP, EventTag.DELAY):\n            return Beat(0)", "        if self.event.tag in (EventTag.STOP,):\n            return Beat(0)", "STOP or DELAY")
